@@ -17,6 +17,7 @@ import FlatccModel.JsonScan
 import FlatccModel.Builder
 import FlatccModel.Alloc
 import FlatccModel.StructGraph
+import FlatccModel.Clone
 /-! `fmodel`: executes the model's definitions on protocol lines (stdin → stdout, one result line per op line). -/
 open Flatcc Flatcc.Util
 
@@ -510,6 +511,22 @@ def vtcacheOp (args : List String) : String :=
     ",".intercalate outs
   | _ => "bad-op"
 
+/-- clone <usemap 0/1> <root address> <addr:kid.kid...;addr:...>: the generated clone on a source object graph (addresses as the
+independent decoder found them in the source buffer); prints the number of objects created and of reference map entries -/
+def cloneOp (args : List String) : String :=
+  open Flatcc.Clone in
+  match args with
+  | [um, root, graph] =>
+    let objs : List (Nat × SObj) := (graph.splitOn ";").filterMap (fun it =>
+      match it.splitOn ":" with
+      | [a, ks] => some (a.toNat!, { payload := [], kids := if ks.isEmpty then [] else (ks.splitOn ".").map String.toNat! })
+      | _ => none)
+    let src : Src := fun a => (objs.find? (fun e => e.1 == a)).map Prod.snd
+    match clone (um == "1") src (objs.length + 1) root.toNat! init with
+    | some (r, st) => s!"ok r={r} objs={st.dst.length} memo={st.memo.length}"
+    | none => "fail"
+  | _ => "bad-op"
+
 def allocOp (args : List String) : String :=
   match args with
   | [hint, len0, reqs] =>
@@ -644,6 +661,7 @@ def step (line : String) : String :=
   | "jscan" :: args => jscanOp args
   | "alloc" :: args => allocOp args
   | "vtcache" :: args => vtcacheOp args
+  | "clone" :: args => cloneOp args
   | "sgraph" :: args => sgraphOp args
   | "refmap" :: args => refmapOp args
   | "ident" :: args => identOp args
